@@ -1146,14 +1146,16 @@ def boc_iters_case(ctx, data, tag, ticks=None):
     loops <= 3*len + 5, the completion-tag search <= 7 per cell."""
     from ..translate import boccnt
     if ticks is None:
-        ticks = boccnt.py_ticks([data])[0]
+        ticks = boccnt.py_ticks([data], budget=lambda n: 40 * n + 2000)[0]
     t = [int(x) for x in ticks.split()[1:]]
     if len(t) != 6:
         return
     inp = {'kind': 'boc-iters', 'boc': bytes(data).hex(), 'tag': tag}
     ctx.case(('boc-iters', bytes(data).hex()), nontrivial=t[5] > 0, sample=inp)
     n = len(data)
-    if t[5] + t[3] + t[2] > n + 1:
+    if ticks.startswith('cut') and t[5] + t[3] + t[2] <= n + 1 and sum(t) - t[1] <= 3 * n + 5:
+        ctx.fail('boc-iters:time', 'Boc.deserialize did not finish within 3 s on a short input (work outside the counted loops)', inp, ticks, 'returns or raises at once')
+    elif t[5] + t[3] + t[2] > n + 1:
         ctx.fail('boc-iters:outer-loops-exceed-len+1', 'the three loops of Boc.deserialize started more iterations than len(data) + 1', inp, t[5] + t[3] + t[2], f'<= {n + 1}')
     elif t[5] + t[0] + t[3] + t[4] + t[2] > 3 * n + 5:
         ctx.fail('boc-iters:loops-exceed-3len+5', 'the loops of Boc.deserialize / deserialize_cell started more iterations than 3*len(data) + 5', inp, sum(t) - t[1], f'<= {3 * n + 5}')
@@ -1165,7 +1167,7 @@ def boc_iters_inputs(rng, big):
     """adversarial count fields over few bytes (the families the length checks must cut), plus the translator's validation bags"""
     from ..translate import boccnt, bocheader
     out = [('val', d) for d in boccnt.validation_inputs()]
-    for size in (1, 2, 3, 4, 7):
+    for size in (1, 2, 3):
         top = 256 ** size - 1
         for cells, roots, body in ((top, 1, b''), (top, top, b''), (top, 0, bytes(2)), (top, 1, bytes(40)), (3, top, bytes(6)),
                                    (top, 1, bytes([7, 0]) * 5), (top, 1, bytes([0, 0]) * (200 if big else 30))):
@@ -1183,7 +1185,7 @@ def boc_iters_check(ctx, big=False):
     n0 = len(ctx.failures)
     try:
         inputs = boc_iters_inputs(ctx.rng, big)
-        ticks = boccnt.py_ticks([d for _, d in inputs])
+        ticks = boccnt.py_ticks([d for _, d in inputs], budget=lambda n: 40 * n + 2000)
         for (tag, d), t in zip(inputs, ticks):
             boc_iters_case(ctx, d, tag, t)
     except Exception as e:
